@@ -14,7 +14,7 @@ use std::collections::BTreeMap;
 
 pub fn entries() -> Vec<Entry> {
     vec![
-        Entry { id: "C28", rule: "acquire/release histories (1-400 ops, single-threaded and with 4 racing threads) on private FreeListPageResource, MonotonePageResource and BlockPageResource instances over a private Map64; model = set of live grants; every grant page aligned, inside the space and disjoint from all live grants, reserved == committed == sum of live grants at every quiescent point, counters never exceed 2^40; non-trivial = >=1 release followed by a re-grant of the same pages (free-list/block) or >=3 grants crossing a chunk (monotone)", run: c28 },
+        Entry { id: "C28", rule: "acquire/release histories (1-400 ops, single-threaded and with 4 racing threads) on private FreeListPageResource, MonotonePageResource and BlockPageResource instances over a private Map64; model = set of live grants; every grant page aligned, inside the space and disjoint from all live grants, reserved == committed == sum of live grants at every quiescent point (also after 4 threads made 1500 abandoned attempts each, reserve_pages + clear_request), counters never exceed 2^40; non-trivial = >=1 release followed by a re-grant of the same pages (free-list/block) or >=3 grants crossing a chunk (monotone)", run: c28 },
         Entry { id: "C29", rule: "allocate/free histories (1-200 ops) for 3 spaces on a private Map32 finalised over a 192-chunk window: allocate_contiguous_chunks(n, head of the space), free_contiguous_chunks of list heads / middles / tails, free_all_chunks; model = ordered region list per space + owner per chunk; after every op: regions disjoint, descriptor of every window chunk == owner (or uninitialised), the next-region chain from each head == the model list, region sizes, available count == window - allocated; non-trivial = >=1 free of a non-head region followed by an allocation that reuses its chunks", run: c29 },
         Entry { id: "C30", rule: "histories (1-60 ops) of quarantine_address_range (only over chunks the model has unmapped or mapped), ensure_mapped and mark_as_mapped over arbitrary page ranges inside a 96-chunk window straddling a 32 GiB slab boundary of the two-level state storage, on a private ChunkStateMmapper; model = state per chunk; after every op all 96 chunk states == model (and is_mapped_address == state is mapped), states only move forward, mapped chunks are readable and writable; non-trivial = >=1 range spanning the slab boundary that contained >=2 different prior states", run: c30 },
     ]
@@ -259,6 +259,32 @@ fn c28_eval(case: &PrCase, env: &Env) -> Outcome {
         let total: usize = live.values().sum();
         let (r, c) = (pr_dyn.reserved_pages(), pr_dyn.committed_pages());
         vensure!(r == total && c == total, "after 4 threads acquired concurrently: reserved {} / committed {} pages, live grants add up to {}", r, c, total);
+    }
+    // abandoned allocation attempts from several threads at once: `reserve_pages` and `clear_request` are
+    // called outside any lock by `Space::acquire` / `Space::not_acquiring`, for every kind of page resource
+    if case.threads % 4 >= 2 {
+        struct Shared<'a>(&'a dyn PageResource<VM>);
+        unsafe impl Send for Shared<'_> {}
+        unsafe impl Sync for Shared<'_> {}
+        let shared = Shared(pr_dyn);
+        let start = std::sync::Barrier::new(4);
+        std::thread::scope(|s| {
+            for t in 0..4usize {
+                let shared = &shared;
+                let start = &start;
+                s.spawn(move || {
+                    let pr_dyn = shared.0;
+                    start.wait();
+                    for k in 0..1500usize {
+                        let r = pr_dyn.reserve_pages(1 + (t * 5 + k) % 17);
+                        pr_dyn.clear_request(r);
+                    }
+                });
+            }
+        });
+        let total: usize = live.values().sum();
+        let (r, c) = (pr_dyn.reserved_pages(), pr_dyn.committed_pages());
+        vensure!(r == total && c == total, "after 4 threads made 1500 abandoned attempts each (reserve_pages + clear_request): reserved {} / committed {} pages, live grants add up to {}", r, c, total);
     }
     let nt = match &pr {
         Pr::Mono(_) => chunk_crossings >= 1 || live.len() >= 3,
